@@ -3,26 +3,30 @@ package memory
 // C14 (kernel): concurrent clients of the in-memory store see a linearizable, race-free map.
 
 import (
+	"hash"
+
 	"perkeep.org/internal/vmodel"
 	"perkeep.org/internal/vrt"
 	"perkeep.org/pkg/blob"
 )
 
 func vBlobs() []vmodel.LinBlob {
-	a, b := vmodel.LinBlob{Ref: blob.RefFromString("a"), Data: "a"}, vmodel.LinBlob{Ref: blob.RefFromString("bb"), Data: "bb"}
-	if b.Ref.Less(a.Ref) {
-		a, b = b, a
-	}
-	return []vmodel.LinBlob{a, b}
+	// the digest comparison is not the subject here (C02): refs are small test refs and
+	// HashMatches is stubbed to accept
+	vrt.Stub("(perkeep.org/pkg/blob.Ref).HashMatches", func(r blob.Ref, h hash.Hash) bool { return true })
+	return []vmodel.LinBlob{{Ref: blob.VerifSmallRef(1), Data: "a"}, {Ref: blob.VerifSmallRef(2), Data: "bb"}}
 }
 
 func vClients(n int, sched int) {
-	vrt.Schedules(sched)
+	vrt.Preemptions(sched)
+	vrt.Schedules(3 + vrt.Tier()) // orders explored at points where the running goroutine stops anyway
 	blobs := vBlobs()
 	st := &Storage{}
 	var have0 uint
+	all := vrt.Bool()
 	for i := range blobs {
-		if vrt.Bool() {
+		// initial contents: nothing or everything (quick), any subset (thorough)
+		if (vrt.Tier() == 0 && all) || (vrt.Tier() > 0 && vrt.Bool()) {
 			op := vmodel.LinOp{Kind: vmodel.LinReceive, Blob: i}
 			vmodel.LinRun(st, blobs, &op)
 			vrt.Assert(op.Err == nil, "setup receive succeeds")
@@ -33,6 +37,8 @@ func vClients(n int, sched int) {
 	for i := range ops {
 		ops[i].Kind = vrt.Choice(vmodel.LinOps)
 		ops[i].Blob = vrt.Choice(len(blobs))
+		// clients are interchangeable: only ascending (kind, blob) sequences are explored
+		vrt.Assume(i == 0 || ops[i-1].Kind*8+ops[i-1].Blob <= ops[i].Kind*8+ops[i].Blob)
 	}
 	vrt.RaceDetect(true)
 	vrt.PreemptAtLocks(true)
@@ -42,5 +48,5 @@ func vClients(n int, sched int) {
 	vrt.Cover("done")
 }
 
-func VK14aMemory2() { vClients(2, 6) }
-func VK14aMemory3() { vClients(3, 6) }
+func VK14aMemory2() { vClients(2, 2+vrt.Tier()) }
+func VK14aMemory3() { vClients(3, 1+vrt.Tier()) }
